@@ -409,10 +409,10 @@ Sorted(S) == IF S = {} THEN <<>>
 \* ---- projection of the abstract state onto what the harness observes --------------
 \* cells in canonical order (type-major), guards sorted by id, destructor counts
 Class(b) == IF b.w THEN "excl" ELSE IF b.r > 0 THEN "shared" ELSE "free"
-TypeSeq == Sorted(Types)
-DynSeq  == Sorted(Dyns)
+\* (Types = 1..NT and Dyns = 0..ND-1 in every configuration: ASSUME below)
 NIds    == Cardinality(Types) * Cardinality(Dyns)
-IdAt(k) == <<TypeSeq[((k - 1) \div Cardinality(Dyns)) + 1], DynSeq[((k - 1) % Cardinality(Dyns)) + 1]>>
+IdAt(k) == <<((k - 1) \div Cardinality(Dyns)) + 1, (k - 1) % Cardinality(Dyns)>>
+ASSUME Types = 1 .. Cardinality(Types) /\ Dyns = 0 .. (Cardinality(Dyns) - 1)
 ProjCell(st, br, id) ==
   [ty |-> id[1], dy |-> id[2], here |-> st[id] # Absent, tid |-> st[id].type,
    payload |-> st[id].payload, ident |-> st[id].ident, b |-> Class(br[id])]
